@@ -1,4 +1,5 @@
 //! Rope programs (C16, rope part of C19).
+use std::ops::Bound;
 use crate::rec_hasher::RecHasher;
 use crate::{hex, Toks};
 use rspack_sources::stream_chunks::stream_chunks_default;
@@ -107,7 +108,14 @@ pub fn rope_case(t: &mut Toks) -> String {
   let mut sl = Vec::new();
   for a in 0..n + 2 {
     for b in 0..n + 2 {
-      let g = r.get_byte_slice(a..b);
+      // the same range [a, b) through every kind of bound the API accepts
+      let g = match (a + 2 * b) % 5 {
+        1 if b >= 1 => r.get_byte_slice(a..=b - 1),
+        2 if a >= 1 => r.get_byte_slice((Bound::Excluded(a - 1), Bound::Excluded(b))),
+        3 if a == 0 => r.get_byte_slice(..b),
+        4 if b == n => r.get_byte_slice(a..),
+        _ => r.get_byte_slice(a..b),
+      };
       sl.push(format!(
         "{}:{}:{}",
         a,
